@@ -15,8 +15,8 @@ _BASE_NOTE = ("Trusted base: the harness (evalsrv) faithfully reports what the p
 
 CHECKS = {
     "C01": {
-        "technique": "runtime monitoring: crash/panic monitor (catch_unwind + child-process death + CLI exit status) over byte-level fuzz, builtin x boundary-argument matrix and nesting towers",
-        "text": "Exploration: every execution produced (mutated corpus / token soup / random bytes; every std function on boundary argument tuples; CLI with ext vars/TLAs; deep towers) ended in a value or a typed, rendered error; any panic, abort, native stack overflow or exit status outside {0,1,2} is a violation. Held on the inputs observed, not a proof of totality.",
+        "technique": "runtime monitoring: crash/panic monitor (catch_unwind + child-process death + CLI exit status) over byte-level fuzz, builtin x boundary-argument matrix, generated heterogeneous values into every builtin, function-specific grids and nesting towers; ASan build of the harness in the thorough tier",
+        "text": "Exploration: every execution produced (mutated corpus / token soup / random bytes; every std function on boundary argument tuples (closures capturing outer locals, defaulted parameters) and on generated mixed nested values; CLI with ext vars/TLAs; deep towers) ended in a value or a typed, rendered error; any panic, abort, native stack overflow or exit status outside {0,1,2} is a violation. Held on the inputs observed, not a proof of totality.",
         "note": _BASE_NOTE + " Resource exhaustion (timeouts/OOM) is inconclusive. Two open known findings (parser native stack overflow on deep nesting; sourceannot assertion on zero-width spans).",
         "design_ref": "DESIGN.md section 2 C01",
     },
@@ -52,38 +52,38 @@ CHECKS = {
     },
     "C18": {
         "technique": "runtime monitoring: differential oracle (Python code-point string operations) and defining identities for ~60 string function families over a mixed-width alphabet",
-        "text": "Exploration: every observed result of length/index/slice/substr/findSubstr/split*/join/strReplace/strip*/trim/case/startsWith/map/flatMap/codepoint/char/format widths on ASCII, 2-/3-/4-byte, combining and overlapping-separator strings equals the code-point reference; out-of-range, negative, fractional and huge arguments give errors.",
+        "text": "Exploration: every observed result of length/index/slice/substr/findSubstr/split*/join/strReplace/strip*/trim (white space outside the trim set must stay)/case/startsWith/map/flatMap/codepoint/char/format widths on ASCII, 2-/3-/4-byte, combining and overlapping-separator strings equals the code-point reference; out-of-range, negative, fractional and huge arguments give errors.",
         "note": _BASE_NOTE,
         "design_ref": "DESIGN.md section 2 C18",
     },
     "C20": {
         "technique": "runtime monitoring: differential oracles (Python int/base64/codecs/hashlib/json/ast/shlex + own strict RFC 8259 decoder), inverse laws, totality monitor for parseYaml on a mutated YAML corpus",
-        "text": "Exploration: parseInt/Octal/Hex exact up to 15 digits and within 1 ulp to 400 digits, non-digits at every position rejected; parseJson accept/reject and value equal a strict reference decoder on generated+mutated documents; parseYaml answers every input and equals parseJson on JSON documents; base64/UTF-8/md5/sha*/escapeString* equal the standard functions incl. block-boundary lengths and corrupted encodings.",
+        "text": "Exploration: parseInt exact up to 15 digits and within 1 ulp to 400 digits, parseHex/parseOctal correctly rounded up to 32/42 significant digits (rounding ties included), non-digits at every position rejected; parseJson accept/reject and value equal a strict reference decoder on generated+mutated documents; parseYaml answers every input and equals parseJson on JSON documents; base64/UTF-8/md5/sha*/escapeString* equal the standard functions incl. block-boundary lengths and corrupted encodings.",
         "note": _BASE_NOTE + " Lone-surrogate escapes are excluded from the parseJson accept/reject comparison.",
         "design_ref": "DESIGN.md section 2 C20",
     },
     "C03": {
         "technique": "runtime monitoring: (a) scripted-heap driver over the real collector vs a reachability model using a freed-event log (exhaustive small scope + random), (b) schedule-independence monitor replaying each program under never/default/every-n/random collection schedules via the GC-mode hook, (c) object-count conservation on a long-lived Program, (d) Miri on the heap driver (thorough)",
         "engine": "gcheap + evalsrv",
-        "text": "Exploration with exhaustive sub-spaces (all op sequences up to length 6-7 over <= 3-4 nodes and <= 4-6 external weak/strong handles): after every collection exactly the unreachable nodes were destroyed, nothing outside a collection, bookkeeping reset, every held handle/edge viewable; complete outcome records (value, error, stack trace, traces) identical under 10 collection schedules for heap-stress templates and corpus mutants; a long-lived state returned to its baseline object count after every round.",
+        "text": "Exploration with exhaustive sub-spaces (all op sequences up to length 6-7 over <= 3-4 nodes and <= 4-6 external weak/strong handles): after every collection exactly the unreachable nodes were destroyed, nothing outside a collection, bookkeeping reset, every held handle/edge viewable; complete outcome records (value, error, stack trace, traces) identical under 10 collection schedules for heap-stress templates (incl. thunks left unforced at collection time) and corpus mutants; a long-lived state returned to its baseline object count after every round.",
         "note": _BASE_NOTE + " The facade's test node traces exactly its edge list; collection points are the evaluator's maybe_gc calls (one per evaluator step).",
         "design_ref": "DESIGN.md section 2 C03",
     },
     "C10": {
-        "technique": "runtime monitoring: outcome-class monitor over (recursion shape x depth x frame limit) sweeps with monotonicity and limit-enforcement invariants; server death = native stack exhaustion",
-        "text": "Exploration over a grid: 28 recursion shapes x depths (0..10^5 in thorough) x 19 limits (0..10^6), 12 cycle shapes x lengths x limits, 23 flat workloads: outcomes only value/StackOverflow (cycles: InfiniteRecursion/StackOverflow), expected values, never a crash, success persists with the same value for every larger limit, a recursion d deep never succeeds with limit s when d >= 3s+20.",
+        "technique": "runtime monitoring: outcome-class monitor over (recursion shape x depth x frame limit) sweeps with monotonicity and limit-enforcement invariants; the recursive call in 31 syntactic positions x tailstrict; every std function given a self-referential argument in every position, each in a dedicated child (10 s / 1 GiB); server death = native stack exhaustion",
+        "text": "Exploration over a grid: 94 recursion shapes x depths (0..10^5 in thorough) x 19 limits (0..10^6), 12 cycle shapes x lengths x limits, 23 flat workloads, ~700 cyclic-argument programs: outcomes only value/StackOverflow (cycles: InfiniteRecursion/StackOverflow), expected values, never a crash, success persists with the same value for every larger limit, a recursion d deep never succeeds with limit s when d >= 3s+20 (only a tailstrict call in genuine tail position may go uncharged); one open known finding (five natively traversing builtins never stop on a cyclic argument).",
         "note": _BASE_NOTE + " 'However deeply or endlessly' is restated as bounded sweeps; builtins that traverse natively (prune, flattenDeepArray, deepJoin, mergePatch) are only required not to crash and to be monotone.",
         "design_ref": "DESIGN.md section 2 C10",
     },
     "C11": {
         "technique": "runtime monitoring: history checker against the sequential model 'fresh state per request' on recorded request/response histories of one long-lived Program; cross-process determinism replay",
-        "text": "Exploration with exhaustive sub-spaces (all permutations of five 4-request pools built around failure-then-reuse shapes): every response on the shared state equals the fresh-state response (value walk, manifest text, error kind/message/in-source spans, stack length), re-evaluating a thunk repeats its first outcome, and every history replays byte-identically in a second process.",
+        "text": "Exploration with exhaustive sub-spaces (all permutations of nine 4-request pools built around failure-then-reuse shapes): every response on the shared state equals the fresh-state response (value walk, manifest text, error kind/message/in-source spans, stack length), objects derived from shared ones (+, objectRemoveKey, mergePatch, mapWithKey) and inherited asserts behave as on a fresh state whatever was forced before, re-evaluating a thunk repeats its first outcome, and every history replays byte-identically in a second process.",
         "note": _BASE_NOTE + " std.trace output is excluded (memoised values are rightly not traced again); a value obtained where the fresh state reports StackOverflow because earlier requests memoised the work is not counted as a changed answer.",
         "design_ref": "DESIGN.md section 2 C11",
     },
     "C14": {
         "technique": "runtime monitoring: tiling/EOF/filter invariants on the token stream of every input + differential oracle (independent reference lexer written from the lexical grammar: kinds, extents, decoded payloads, lossy UTF-8)",
-        "text": "Exploration with exhaustive sub-spaces (all pairs and triples of the 15 operator characters in 5 contexts; every BMP scalar value in thorough + 2000 astral in 8 string/comment forms; every class of invalid 1-3 byte UTF-8 prefix in 7 forms): token spans tile the input up to an EOF token, the filtered list equals the full list minus whitespace/comments, failures carry exactly one in-range location, and every token equals the reference lexer's.",
+        "text": "Exploration with exhaustive sub-spaces (all pairs and triples of the 15 operator characters in 5 contexts; every BMP scalar value in thorough + 2000 astral in 8 string/comment forms; every class of invalid 1-3 byte UTF-8 prefix in 7 forms): token spans tile the input up to an EOF token, the filtered list equals the full list minus whitespace/comments, failures carry exactly one in-range location, number forms with '_' in every position, LF / CR LF / mixed text blocks with blank lines, and every token equals the reference lexer's.",
         "note": _BASE_NOTE + " Text blocks containing CR are only checked for tiling (not modelled by the reference).",
         "design_ref": "DESIGN.md section 2 C14",
     },
@@ -95,12 +95,12 @@ CHECKS = {
     },
     "C16": {
         "technique": "runtime monitoring: span-in-source monitor on every structured error and stack-trace item; rendered-report checker (Session plain/coloured x max_trace) against line/column computed from the span; in-process SpanManager round-trip monitor with a reference table",
-        "text": "Exploration: 70+ failing templates x paddings (CRLF, tabs, multi-byte, invalid UTF-8, 10^5-column lines) and corpus mutants covering ~60 error kinds: all spans inside their source, reports render with an error header, right file/line/(ASCII) column, consistent cropping arithmetic, colour-stripped == plain; 10^6-10^8 span registrations over contexts up to 2^40 bytes round-trip unchanged.",
+        "text": "Exploration: 115 failing templates (45 with the error at the very end of the input) x paddings (CRLF, tabs, multi-byte, invalid UTF-8, 10^5-column lines) and corpus mutants covering ~60 error kinds: all spans inside their source, reports render (a panic while the diagnostic is built is a violation) with an error header, right file/line/(ASCII) column, consistent cropping arithmetic, colour-stripped == plain; 10^6-10^8 span registrations over contexts up to 2^40 bytes round-trip unchanged.",
         "note": _BASE_NOTE + " One open known finding (sourceannot assertion on zero-width spans). Columns compared only where display width equals byte offset.",
         "design_ref": "DESIGN.md section 2 C16",
     },
     "C02": {
-        "technique": "runtime monitoring: differential oracle = reference interpreter written from the specification, on typed random programs generated as syntax trees and printed in two styles; plus hand-derived feature-interaction templates",
+        "technique": "runtime monitoring: differential oracle = reference interpreter written from the specification, on typed random programs generated as syntax trees and printed in two styles; plus an assert-history family (objects with invariants observed or not before being combined) and hand-derived feature-interaction templates",
         "text": "Exploration: for every generated program (all core features: operators, strings/arrays, slices, locals, functions with default/named arguments and recursion, conditionals, both comprehension kinds, objects with inheritance, self/super/$, visibilities, +:, object locals, asserts, error, in, in super) the manifested value, or the failure class with the message for error/assert, equals the reference interpreter's; ~80 templates with values derived by hand from the specification.",
         "note": _BASE_NOTE + " driver/refinterp.py is the trusted reading of the specification; programs whose number rendering conventions differ are skipped and counted.",
         "design_ref": "DESIGN.md section 2 C02, Appendix B/G",
@@ -112,14 +112,14 @@ CHECKS = {
         "design_ref": "DESIGN.md section 2 C04",
     },
     "C07": {
-        "technique": "runtime monitoring: metamorphic relations (all bracketings of + chains, {} identity) on manifestation and an introspection vector; agreement laws between manifestation/length/in/objectHas/objectFields; reference-model visibility tables; objectRemoveKey field-table and unrelated-value monitors",
-        "text": "Exploration: chains of 2-5 generated objects (incl. results of objectRemoveKey/mergePatch/prune/mapWithKey) manifest and introspect identically in every bracketing and with {} on either side; the ways of asking which fields exist agree; visibility follows the : :: ::: rules of the reference model; objectRemoveKey removes exactly the key, keeps other visibilities and the values of fields that do not read it.",
+        "technique": "runtime monitoring: metamorphic relations (all bracketings of + chains, {} identity) on manifestation and an introspection vector; agreement laws between manifestation/length/in/objectHas/objectFields; reference-model visibility tables; objectRemoveKey field-table and unrelated-value monitors; the same laws with operands observed before being combined",
+        "text": "Exploration: chains of 2-5 generated objects (incl. results of objectRemoveKey/mergePatch/prune/mapWithKey) manifest and introspect identically in every bracketing and with {} on either side, also when operands were listed/manifested beforehand; the ways of asking which fields exist agree; visibility follows the : :: ::: rules of the reference model; objectRemoveKey removes exactly the key, keeps other visibilities and the values of fields that do not read it.",
         "note": _BASE_NOTE + " A field 'does not read' key K iff it still evaluates when K is overridden by a failing field.",
         "design_ref": "DESIGN.md section 2 C07",
     },
     "C09": {
-        "technique": "runtime monitoring: differential oracle = scope checker written from the specification's static rules, on load-only runs of generated programs with renamed binders (shadowing/duplicates/captures) and 13 kinds of injected faults at random positions; evaluation of accepted programs monitored for unbound-variable panics",
-        "text": "Exploration: accept/reject, AnalyzeError variant, reported name and (for unbound variables, self, $) the exact span equal the oracle's on typed programs, pool-renamed programs, fault injections at every syntactic role (dead branches, unused locals, defaults, comprehension specs, field-name expressions, object locals) and arbitrary syntactic trees; nothing is evaluated at load; accepted programs never hit an unbound variable at run time.",
+        "technique": "runtime monitoring: differential oracle = scope checker written from the specification's static rules, on load-only runs of generated programs with renamed binders (shadowing/duplicates/captures) and 13 kinds of injected faults at random positions; evaluation of accepted programs, and of every std function x argument position given a callback whose default mentions captured local/std/self/$, monitored for unbound-variable panics",
+        "text": "Exploration: accept/reject, AnalyzeError variant, reported name and (for unbound variables, self, $) the exact span equal the oracle's on typed programs, pool-renamed programs, fault injections at every syntactic role (dead branches, unused locals, defaults, comprehension specs, field-name expressions, object locals) and arbitrary syntactic trees; nothing is evaluated at load; accepted programs never hit an unbound variable at run time, including when a builtin rather than user code calls a closure with defaulted parameters.",
         "note": _BASE_NOTE,
         "design_ref": "DESIGN.md section 2 C09",
     },
@@ -134,7 +134,7 @@ CHECKS = {
     "C13": {
         "technique": "runtime monitoring with fault injection: generated directory trees run through the real CLI against a Python model of the import search, load-once observed through one std.trace per file, content oracles (lossy UTF-8 / exact bytes)",
         "engine": "cli-driver",
-        "text": "Exploration with an exhaustive sub-space (one name placed in every subset of {importer dir, J1, J2, J3} x every order and count of -J flags): every import delivers the file the stated search order selects, each file is evaluated once however spelled (./, ../, symlinks, absolute), std.thisFile is the first load path, importstr/importbin deliver lossy text / exact bytes, and missing/directory/dangling/looping/unreadable targets exit 1 with the error at the import expression.",
+        "text": "Exploration with an exhaustive sub-space (one name placed in every subset of {importer dir, J1, J2, J3} x every sequence of 0-4 -J flags, repeats included; two importers using the same relative string x placements x -J sequences x evaluation order): every import delivers the file the stated search order selects as a function of (importer directory, -J list) only, each file is evaluated once however spelled (./, ../, symlinks, absolute), std.thisFile is the first load path, importstr/importbin deliver lossy text / exact bytes, and missing/directory/dangling/looping/unreadable targets exit 1 with the error at the import expression.",
         "note": _BASE_NOTE + " Importers are real files (code given with -e has no directory of its own).",
         "design_ref": "DESIGN.md section 2 C13",
     },
